@@ -60,6 +60,7 @@ type doc struct {
 	text    []byte
 	want    protoreflect.Message
 	expect  int
+	prime   []byte // if set: converted by the same converter right before text, outcome ignored (history of length 2)
 }
 
 type jcase struct {
@@ -117,6 +118,9 @@ func (jc *jcase) toCase() core.Case {
 					in := append([]byte{}, d.text...)
 					var out []byte
 					var cerr error
+					if d.prime != nil {
+						core.Catch(func() { cv.Do(context.Background(), c.In, append([]byte{}, d.prime...)) })
+					}
 					pi := core.Catch(func() { out, cerr = cv.Do(context.Background(), c.In, in) })
 					expect := d.expect
 					if expect == wantErrorIfDisallow {
@@ -279,7 +283,7 @@ func hexs(b []byte) string {
 // ---- groups -----------------------------------------------------------------------------------------
 
 func extraGroups() []string {
-	g := []string{"nesting-limit", "null-members", "unknown-members", "mismatch", "spelling", "prefix/packed"}
+	g := []string{"nesting-limit", "null-members", "unknown-members", "mismatch", "spelling", "prefix/packed", "after-failure"}
 	for d := 1; d <= 3; d++ {
 		for _, b := range []string{"128", "16384"} {
 			g = append(g, fmt.Sprintf("prefix/depth%d/%s", d, b))
@@ -327,6 +331,8 @@ func enumerate(tier, g string, yield func(*jcase) bool) {
 		nullCases(yield)
 	case g == "unknown-members":
 		unknownCases(yield)
+	case g == "after-failure":
+		afterFailureCases(yield)
 	case g == "mismatch":
 		mismatchCases(yield)
 	case g == "spelling":
